@@ -1,15 +1,18 @@
-\* C01 leg A quick, 3 replicas (nested iterator dd(dd(r1,r2),r3)): all subsets of a 4-point grid
-\* (4 096 layouts + 16 identical), 3 seek targets
+\* C01 leg A quick, 3 replicas (nested iterator dd(dd(r1,r2),r3)): at most 2 samples per replica on a
+\* 4-point grid with gaps beyond the penalty (11^3 = 1 331 layouts + 11 identical), readers mixing
+\* Next with at most one Seek (3 targets)
 SPECIFICATION Spec
 CONSTANTS InitPen = 5
           Grid = {0, 1, 6, 11}
           NumReps = 3
-          MaxLen = 4
+          MaxLen = 2
           Ctr = FALSE
           Starts = {0}
           Incs = {0}
-          Targets = {0, 5, 11}
+          Targets = {0, 6, 12}
           EmitMod = 1
+          MaxSeeks = 1
+          Kinds = {"f"}
 INVARIANTS C01_StrictlyIncreasing C01_FromSomeReplica C01_UnchangedIfIdentical C01_SeekIsSuffix
-           StepwiseEqualsFunctional BoundedOutput OnlyDoneIsFinal
+           C01_FollowsFullStream BoundedOutput
 CHECK_DEADLOCK FALSE
